@@ -70,6 +70,24 @@ VOCAB(h_iq, ARR("iq", "error", "bind", "ping", "text", "item-not-found", "zz", "
     } \
     if (ADMIT) { STANZA_FIXPOINT(T, "stanza", root.el) admitted = true; } \
 }
+// necessary condition of the fix point that avoids the second serialization: re-parsing the serialized stanza finds as many extension elements
+#define STANZA_EXTCOUNT(T, name, t) { T x; x.parse(t); VpWriter w1; x.toXml(w1.writer()); QDomElement t1 = w1.root(); \
+      T y; y.parse(t1); vp_assert(y.extensions().size() == x.extensions().size(), "C02 " name ": re-parsing the serialized stanza finds the same number of extension elements (fix point)"); }
+#define IQSHAPE2(fn, T) static void fn(const Vocab &v, int rootTag) \
+{ \
+    C02Node root, c[2], g[2]; \
+    root.make(v, nullptr, rootTag, -1); \
+    unsigned n1 = vp_case_u(0, 4); if (n1 > 2) n1 = 2; \
+    for (unsigned i = 0; i < 2; i++) { \
+        if (i >= n1) break; \
+        unsigned b = 2 + 13 * i; \
+        c[i].make(v, &root, int(vp_case_u(b, 8) % v.nTags), int(vp_case_u(b + 3, 8) % v.nNss)); vp_c02_append(&root.el, &c[i].el); \
+        if (vp_case_bool(b + 6)) { g[i].make(v, &c[i], int(vp_case_u(b + 7, 8) % v.nTags), int(vp_case_u(b + 10, 8) % v.nNss)); vp_c02_append(&c[i].el, &g[i].el); } \
+    } \
+    STANZA_EXTCOUNT(T, "stanza", root.el) \
+}
+IQSHAPE2(iqShapeIqExt, QXmppIq)
+extern "C" void h_iq_extcount() { WARM() iqShapeIqExt(h_iq_v, 0); }
 IQSHAPE(iqShapeIq, QXmppIq, true)
 IQSHAPE(iqShapeBind, QXmppBindIq, QXmppBindIq::isBindIq(root.el))
 IQSHAPE(iqShapePing, QXmppPingIq, QXmppPingIq::isPingIq(root.el))
